@@ -195,7 +195,7 @@ class RealRun(Harness):
     positions): both yield a block, the exit status is the ranked maximum and JSON stdout is ONE well-formed array with one element per target."""
     prop, ob = PROP, 'O3'
     width = 64
-    BAD = ['refused', 'unresolvable', 'silent', 'early-close', 'bad-block-size', 'truncated-kexinit', 'garbage-kexinit', 'probe-garbage']
+    BAD = ['refused', 'unresolvable', 'silent', 'early-close', 'bad-block-size', 'truncated-kexinit', 'garbage-kexinit', 'probe-garbage', 'type-byte-only-kexinit', 'probe-type-byte-only']
 
     def __init__(self, bad, pos, json):
         self.bad, self.pos, self.json = bad, pos, json
@@ -227,6 +227,11 @@ class RealRun(Harness):
             bad = [AE.Conn([BANNER, kp[:20] + inp['x']], 'close')]
         elif b == 'garbage-kexinit':
             bad = [AE.Conn([BANNER, AE.frame(bytes([20]) + b'\x00' * 16 + b'\xff\xff\xff\xff' + inp['x'])], 'close')]
+        elif b == 'type-byte-only-kexinit':
+            bad = [AE.Conn([BANNER, AE.frame(b'\x14')], 'close')]
+        elif b == 'probe-type-byte-only':
+            kp2 = kexinit_pkt(['diffie-hellman-group14-sha256'], ['ssh-rsa'])
+            bad = [AE.Conn([BANNER, kp2]), AE.Conn([BANNER, AE.frame(b'\x14')])]
         elif b == 'probe-garbage':
             kp2 = kexinit_pkt(['diffie-hellman-group14-sha256'], ['ssh-rsa'])
             bad = [AE.Conn([BANNER, kp2]), AE.Conn([BANNER, kp2, AE.frame(bytes([31]) + inp['x'])])]
@@ -294,13 +299,14 @@ class RealRun(Harness):
             yield 'stdout-is-one-json-array-with-one-element-per-target', obs['json_ok'] is True
         else:
             yield 'two-result-blocks', obs['seps'] == 1 and obs['good']
-        yield 'exit-status-ranked-max', r in (1, -1) or (self.bad == 'probe-garbage' and r in (0, 2, 3))
+        yield 'exit-status-ranked-max', r in (1, -1) or (self.bad.startswith('probe-') and r in (0, 2, 3))
         yield 'nothing-printed-outside-the-blocks', not obs['leaked']
 
     def classify(self, inp, obs, label):
         r = obs['ret']
         if isinstance(r, Exc) and r.type == 'SystemExit':
-            return 'sys.exit-in-packet-reader-aborts-the-whole-run'
+            # the known finding is the sys.exit for a packet of invalid block size; any other input that aborts the run is a different violation
+            return 'sys.exit-in-packet-reader-aborts-the-whole-run' if self.bad == 'bad-block-size' else 'run-aborted-by-SystemExit(%s)' % self.bad
         if label == 'stdout-is-one-json-array-with-one-element-per-target':
             return 'per-target-error-text-is-spliced-raw-into-the-json-array'
         return label
